@@ -72,6 +72,12 @@ EXTRA_MUST_WORK = [
     "select a from t1 where not exists (select * from t2 where t2.x = t1.a)",
     "select b from t1 where a in (select x from t2 where y > 0)",
     "select count(*) from t1 where a in (select x from t2)",
+    "select a from t1 where b < (select sum(y) from t2 where x = a group by x)",
+    "select a from t1 where b > (select count(*) from t2 where t2.x = t1.a)",
+    "select a from t1 where a in (select x from t2 group by x)",
+    "select a from t1 where b > (select max(y) from t2 where t2.x = t1.a)",
+    "select a from t1 where b = (select min(q) from t3 where p = a group by p)",
+    "select a from t1 where not exists (select * from t3 where t3.p = t1.a and t3.q > 1)",
 ]
 
 
@@ -211,7 +217,12 @@ def run(ck):
             if vo.startswith("runtime-todo") or (on["class"] == "ok" and ("(join right_outer" in on["optimized"] or "(join full_outer" in on["optimized"])):
                 ck.report("plan:nl-outer-join-left-in-optimized-plan", "the optimized plan of `%s` keeps a nested-loop right/full outer join (executor: todo!())" % c["sql"], replay=replay)
                 continue
-            sub = [k for k in ("apply", "in", "exists", "max1row") if ("(%s " % k) in on["optimized"]]
+            sub = [k for k in ("apply", "in", "exists", "max1row") if ("(%s " % k) in (on.get("optimized") or "")]
+            if c["sql"] in must_work and not sub:
+                again = c01.run_harness(ck, [{"id": "again", "engine": eng, "setup": c["setup"] + extra, "queries": [{"sql": c["sql"], "opt": "on", "plans": True}]}], "again", stages).get("again")
+                if not (again and again["results"] and again["results"][0]["class"] == "ok"):
+                    ck.report("regression:must-plan:" + vlib.slug(c["sql"])[:60], "`%s` used to get an executable plan on this configuration; now: checker `%s`, executor %s %s" % (c["sql"], vo, on["class"], on.get("msg", "")[:100]), replay=replay)
+                    continue
             if sub:
                 # a subquery construct the executor has no operator for survived optimization
                 if c["sql"] in must_work:
